@@ -27,7 +27,7 @@ value >= stop, after/without storing it), "ev":"call"|"request" (where the adapt
   {"op":"opsx",...,"ops":[int|null|"r"]} ("r" = FillRequest.reset()) -> {"t":[[out|null,raised,n_count,len_in,len_out],..]}
   {"op":"splitx",...,"m","xs"} -> {"r":[[ints]],"raised":bool}
   {"op":"runx",...,"xs"} -> {"r":[[ints]],"raised":bool}   (_run_fill_compute)
-  {"op":"runp",...,"j":int|null,"xs"} -> {"r":..,"spin":bool,"spec":..}   (Model/C16P.lean: Run element reading j values)
+  {"op":"runp",...,"j":int|null,"xs"} -> {"r":..,"spec":..,"old":..}   (Model/C16P.lean: Run element reading j values)
 Further optional fields: "frac" (init: bufsize != int(bufsize)), el."kpar", "xs2" (run / ops / split: a second flow on the
 same object), "apre"/"apost" (split: elements around the adapter in the branch). -/
 open Lean Lena.Drv Lena.C16
@@ -299,13 +299,12 @@ def handle (j : Json) : Json :=
       | some t, some xs =>
         let jr : Option Nat := nat? (getD j "j")
         let e := readEl t jr
-        let r := runRunP e c.bufsize c.reset c.bufferInput c.yor [] xs
-        -- "fixed": `_run_run` as notes/C16_defect_1.patch makes it (the rest of each block is skipped after el.run):
-        -- the loops of Model/C16.lean on the element that forgets how much it read
-        let cr : Cfg := { c with runKind := .runRun }
-        Json.mkObj [("r", ofOuts r.1), ("spin", Json.bool r.2),
+        -- `_run_run` of /repo now (fix dbe92ef: the rest of each block is skipped after el.run); "old": the pinned
+        -- transcription of the code before the fix (counterexamples in Props/C16P.lean), reported for information
+        let r := runRunQ e c.bufsize c.reset c.bufferInput c.yor [] xs
+        Json.mkObj [("r", ofOuts r.1),
           ("spec", ofOuts (specBlocksP e c.bufsize c.reset c.yor [] (chunks c.bufsize xs))),
-          ("fixed", ofOuts (runFR e.toEl cr [] xs).1)]
+          ("old", ofOuts (runRunP e c.bufsize c.reset c.bufferInput c.yor [] xs).1)]
       | _, _ => err "bad runp args"
     | _ => err "unknown op"
 
